@@ -1506,6 +1506,12 @@ func TestC07Race(t *testing.T) {
 	c := evid.New("C07", "exploration", "race-detector build of the concurrent workloads")
 	defer c.Finish()
 	kinds := kindsFromEnv(backends.All)
+	// clients that name their bucket in the Host header share the server's routing front end
+	for _, m := range []c16Case{c16Modes[0], c16Modes[2], c16Modes[3], c16Modes[10]} {
+		cs := c07Case{Backend: backends.Mem, Keys: 1}
+		c.Case(evid.FP("race-host-style", mustJSON(m)), true, func() interface{} { return m }, "check:race-build-host-style")
+		report(c, "host-style-race-build", c16Stress(m, 8, evid.Scale(150, 1500)), c07Replayable{Case: cs})
+	}
 	deadline := time.Now().Add(time.Duration(evid.Scale(15, 100)) * time.Second)
 	seed := uint64(evid.Seed())
 	n := 0
